@@ -117,4 +117,4 @@ def run(ctx):
                        "random mostly-valid, risky (unlock by non-owner, relock), recursive re-lock by a queued waiter, ordered "
                        "hand-off chains; MC: 2-3 actors, all interleavings. non-trivial = accepted trace with >= 6 calls incl. a lock "
                        "(MC: complete trace)")
-    synclib.standard_run(ctx, gen_normal, gen_mc, nontrivial, quick=(120, 4), thorough=(3000, 30))
+    synclib.standard_run(ctx, gen_normal, gen_mc, nontrivial, quick=(120, 4), thorough=(1500, 12))
